@@ -65,9 +65,13 @@ def _build_stage1(flavour):
     d = os.path.join(root, key)
     if os.path.exists(os.path.join(d, ".ok")):
         return d
-    # evict stale builds of this flavour
+    # evict stale builds of this flavour (not recent ones: a concurrent check may still be using them)
     for old in glob.glob(os.path.join(root, "*-" + flavour)):
-        shutil.rmtree(old, ignore_errors=True)
+        try:
+            if time.time() - os.path.getmtime(os.path.join(old, ".ok")) > 1800:
+                shutil.rmtree(old, ignore_errors=True)
+        except OSError:
+            pass
     tmp = d + ".tmp%d" % os.getpid()
     shutil.rmtree(tmp, ignore_errors=True)
     os.makedirs(tmp)
